@@ -32,7 +32,7 @@ def run(ctx):
             ctx.nontrivial(cid)
     shards = 8
     parts = [calls[k::shards] for k in range(shards)]
-    out = ctx.run_impl("c03", [dict(id=k, calls=parts[k]) for k in range(shards)], nproc=shards)
+    out = ctx.run_impl("c03", [dict(id=k, calls=parts[k]) for k in range(shards)], nproc=shards, timeout_s=3000 if ctx.quick else 9000, env=dict(VERIF_CASE_TIMEOUT=900 if ctx.quick else 3000))
     traces = [out[k]["events"] for k in range(shards)]
     for t in traces:
         for e in t:
